@@ -364,7 +364,7 @@ def main(prop, tier, seed, replay_path=None):
             ops = re.findall(r'/\\ op = (<<[^\n]*>>)', r1.out)
             e1_counterexamples.append({"invariant": r1.violated[0], "ops": ops})
         # ---- graph for replay
-        depth_g = 4 if tier == "quick" else 5
+        depth_g = 5 if tier == "quick" else 6
         (wd / "g.cfg").write_text(tlc_cfg(depth_g, repaired, invariants=False))
         g, rg = stategraph.dump_graph("Lifecycle", str(wd / "g.cfg"), "lifecycle")
     finally:
@@ -373,13 +373,24 @@ def main(prop, tier, seed, replay_path=None):
         scen = json.loads(open(replay_path).read())["scenario"]
         jobs = [(scen["params"]["labels"], [None] * len(scen["params"]["labels"]))]
     else:
-        edges = list(g.edges)
+        # the transition taken by the code depends on the real state only: edges whose source states
+        # differ only in the operation counter / last operation / ghosts are one case; keep the shallowest
+        def view(st):
+            return json.dumps({k: st[k] for k in ("flow", "lastType", "defaults", "ctx", "primed", "fcfg", "fflow", "fck")},
+                              sort_keys=True, default=str)
+        best = {}
+        for e in g.edges:
+            key = (view(g.nodes[e[0]]), e[2])
+            if key not in best or g.nodes[e[0]]["nops"] < g.nodes[best[key][0]]["nops"]:
+                best[key] = e
+        edges = sorted(best.values())
+        n_unique = len(edges)
         rnd.shuffle(edges)
         if tier == "quick":
-            # all edges at depth <= 2 plus a seeded sample
-            shallow = [e for e in edges if g.nodes[e[0]]["nops"] <= 1]
-            rest = [e for e in edges if g.nodes[e[0]]["nops"] > 1][:1100]
-            edges = shallow + rest
+            # every checkpoint-writing operation, every shallow edge, plus a seeded sample of the rest
+            key_edges = [e for e in edges if e[2].startswith('Sample("smc"') or g.nodes[e[0]]["nops"] <= 1]
+            rest = [e for e in edges if not (e[2].startswith('Sample("smc"') or g.nodes[e[0]]["nops"] <= 1)]
+            edges = key_edges + rest[:600]
         jobs = []
         for (u, v, lab) in edges:
             _, path = g.path_to(u)
@@ -430,7 +441,8 @@ def main(prop, tier, seed, replay_path=None):
         "exhaustive": tier != "quick",
         "design_level": {"module": "Lifecycle", "depth": depth_e1, "distinct_states": r1.distinct,
                          "states_generated": r1.generated, "violated": r1.violated, "constants_repaired": repaired},
-        "graph": {"depth": depth_g, "states": len(g.nodes), "edges": len(g.edges), "edges_replayed": len(jobs)},
+        "graph": {"depth": depth_g, "states": len(g.nodes), "edges": len(g.edges),
+                  "distinct_state_operation_pairs": (n_unique if not replay_path else 0), "edges_replayed": len(jobs)},
         "conformance_rejections": len(drifts), "real_state_violations": n_viol, "known_findings_hit": known,
     }
     write_evidence(prop, tier, seed, time.time() - t0, cov, STD_ASSUMPTIONS + [
